@@ -5,6 +5,7 @@
 pub mod toy;
 pub mod hashers;
 pub mod util;
+pub mod coins;
 
 #[cfg(kani)]
 mod c06;
@@ -32,3 +33,7 @@ mod c18;
 mod c07;
 #[cfg(kani)]
 mod c03;
+#[cfg(kani)]
+mod gen_c05;
+#[cfg(kani)]
+mod c04;
